@@ -287,7 +287,7 @@ def serialize_to_xml(elements: Iterable[Any],
     else:
         cdata_section = ()
 
-    method = kwargs.get('method', 'xml')
+    method = params.get('method', 'xml')
     if method == 'xhtml':
         method = 'html'
 
